@@ -19,8 +19,8 @@ TEXT = {
   "boundary transparency is proved per function: break_on_end_of_input re-bases the cursor by exactly the consumed count, consumed is a function of the registers, Align impls are exact shifts (relational spec), Arena::shift drops exactly the consumed prefix, and every state function re-establishes the register invariant; the relational clause (two chunkings give the same events) is not a unary contract and is covered only by the bounded executor",
   "relational residual not decided deductively; A-parse-loop; A-enc-stream for characters split inside encoding_rs' decoder"),
  "C03": ("proof",
-  "tree-builder feedback is never lost: every state function is verified to leave the machine in a state whose text type is the current one (st_type), emit_tag/finish_tag_name/try_get_tree_builder_feedback are verified on the real bodies; the text-type table, the foreign-content exit list, the ambiguity guard (refuses exactly inside select/template-in-select/frameset) and LocalNameHash::update are proved over the full u64 domain by Kani. Equivalence of the ~70 transition tables with the WHATWG tokenizer is NOT decided. The namespace stack of the tree-builder simulator is verified (U-TBSV: enter pushes exactly, leave pops exactly one, never empty). A list of hand-derived WHATWG conformance cases for foreign content runs in the bounded executor.",
-  "WHATWG table equivalence not decided (would require the standard as a spec); RequestLexeme callbacks are opaque; A-parse-loop; get_feedback_for_start_tag_in_foreign_content / check_integration_point_exit (closures) opaque; known findings F-C03-2 (`<svg/>`), F-C03-3 (`</title>` inside an SVG integration point)"),
+  "tree-builder feedback is never lost: every state function is verified to leave the machine in a state whose text type is the current one (st_type), emit_tag/finish_tag_name/try_get_tree_builder_feedback are verified on the real bodies; the text-type table, the foreign-content exit list, the ambiguity guard (refuses exactly inside select/template-in-select/frameset) and LocalNameHash::update are proved over the full u64 domain by Kani. Equivalence of the ~70 transition tables with the WHATWG tokenizer is not decided deductively; it is checked, bounded, against a reference tokenizer written from the standard (all strings over `<>/!-a= \"'?` up to length 5/6, token sequences inside script / escaped / double-escaped / RCDATA / RAWTEXT / PLAINTEXT contexts, every 1-cut chunking for the short ones). The namespace stack of the tree-builder simulator is verified (U-TBSV: enter pushes exactly, leave pops exactly one, never empty). A list of hand-derived WHATWG conformance cases for foreign content runs in the bounded executor.",
+  "WHATWG table equivalence bounded only (reference tokenizer in the bounded executor; attributes' and character references' contents are not compared there); RequestLexeme callbacks are opaque; A-parse-loop; get_feedback_for_start_tag_in_foreign_content / check_integration_point_exit (closures) opaque; known findings F-C03-2 (`<svg/>`), F-C03-3 (`</title>` inside an SVG integration point)"),
  "C04": ("proof",
   "leaf semantics only: NthChild::has_index is proved equal to the CSS An+B definition (exists n >= 0. A*n+B == index) for all i32 triples, with no overflow (Verus, real body, nonlinear lemmas); the six attribute operators with all case modes and first-match case-insensitive attribute lookup are checked against spec functions on bounded strings (Kani, bounded, not counted) DenseHashSet (the set of matched handler ids) insert is proved exact for every u32 id (Verus U-DHS); Stack::get_stack_directive (void / self-closing-in-foreign) is complete over all name hashes (Kani U-STK); the selector compiler, VM and element stack are exercised only by the bounded oracle (322 generated selectors x all tag sequences up to length 4/5 + pseudo-random longer ones, independent CSS/tree oracle).",
   "cssparser/selectors parsing, the selector compiler and the VM's jump/bail-out logic are not under contract (bounded stand-in only); hashbrown maps trusted; known finding F-C04-1 (:not() with a compound argument)"),
